@@ -167,7 +167,7 @@ class SceneGraph:
                     # append the inverted backwards matrix
                     matrices.append(np.linalg.inv(backward["matrix"]))
             # filter out any identity matrices
-            matrices = [m for m in matrices if np.abs(m - _identity).max() > 1e-8]
+            matrices = [m for m in matrices if not np.array_equal(m, _identity)]
             if len(matrices) == 0:
                 matrix = _identity
             elif len(matrices) == 1:
@@ -585,8 +585,8 @@ class EnforcedForest:
         else:
             # check to see if matrix and geometry are identical
             edge = self.edge_data[(u, v)]
-            if util.allclose(
-                kwargs.get("matrix", _identity), edge.get("matrix", _identity), 1e-8
+            if np.array_equal(
+                kwargs.get("matrix", _identity), edge.get("matrix", _identity)
             ) and (edge.get("geometry") == kwargs.get("geometry")):
                 return False
 
